@@ -55,9 +55,10 @@ func laws(sel int, in, got []int64, law func(lsel int, lin []int64, sig string))
 			w.B(cur.PgViewBefore)
 			w.Obs(0, prev)
 			w.Obs(1, cur)
-			law(111, w.T, "C05-killpods-counters")
-			law(112, w.T, "C05-sync-outofsync-double-count")
+			law(111, w.T, "")
+			law(112, w.T, "")
 			law(113, w.T, "C05-pgpending-stale-counters")
+			law(114, w.T, "C05-cache-status-leak")
 		}
 	case 2:
 		r := &jobctl.R{T: in}
